@@ -16,7 +16,7 @@ RFLAG=""; [ -n "$RACE" ] && [ "$RACE" != "-" ] && RFLAG="-race"
 [ -n "${DEMO_TAGS:-}" ] && RFLAG="$RFLAG -tags $DEMO_TAGS"
 echo "== clean tree: demo must pass"
 cp $DEMO $D/$PKG/demo_mutant_test.go
-(cd $D/$PKG && go test $RFLAG -vet=off -count=1 -run 'Demo|Mutant' . 2>&1 | tail -3); echo "demo-clean-exit=${PIPESTATUS[0]}"
+(cd $D/$PKG && env ${DEMO_ENV:-} go test $RFLAG -vet=off -count=1 -run 'Demo|Mutant' . 2>&1 | tail -3); echo "demo-clean-exit=${PIPESTATUS[0]}"
 rm -f $D/$PKG/demo_mutant_test.go
 echo "== apply patch"
 git -C $D apply $M/patch.diff || { echo "PATCH DOES NOT APPLY"; exit 3; }
@@ -25,7 +25,7 @@ echo "== pinned suite with patch"
 (cd $D && go test -vet=off -count=1 ./... 2>&1 | grep -v "no test files" | tail -8)
 echo "== demo with patch: must fail"
 cp $DEMO $D/$PKG/demo_mutant_test.go
-(cd $D/$PKG && go test $RFLAG -vet=off -count=1 -run 'Demo|Mutant' . 2>&1 | tail -6); 
+(cd $D/$PKG && env ${DEMO_ENV:-} go test $RFLAG -vet=off -count=1 -run 'Demo|Mutant' . 2>&1 | tail -6); 
 rm -f $D/$PKG/demo_mutant_test.go
 for c in ${CHECKS//,/ }; do
   echo "== check $c $TIER against patched copy"
